@@ -2,6 +2,7 @@ SPECIFICATION Spec
 CONSTANTS MaxBlock = 3 MaxOps = 7 MaxLen = 7
   Ms = {0, 1, 2}
   Takes = {0, 1}
+  Srcs = {"iter", "list"}
   SplitBufs <- SplitBufsQuick
   Variant = "intended"
 INVARIANT RunIsBlocks
